@@ -109,3 +109,140 @@ func H_C16_docx_package() {
 	vAssert("footer-part-read", len(r.FooterTexts()) == 1 && r.FooterTexts()[0] == "RunningFooterText")
 	vReach("end")
 }
+
+const vNumberingXML = `<?xml version="1.0" encoding="UTF-8" standalone="yes"?><w:numbering ` + vWNS + `>` +
+	`<w:abstractNum w:abstractNumId="0"><w:lvl w:ilvl="0"><w:start w:val="1"/><w:numFmt w:val="decimal"/><w:lvlText w:val="%1."/></w:lvl><w:lvl w:ilvl="1"><w:start w:val="1"/><w:numFmt w:val="lowerLetter"/><w:lvlText w:val="%2)"/></w:lvl></w:abstractNum>` +
+	`<w:abstractNum w:abstractNumId="1"><w:lvl w:ilvl="0"><w:start w:val="1"/><w:numFmt w:val="bullet"/><w:lvlText w:val="&#8226;"/></w:lvl><w:lvl w:ilvl="1"><w:start w:val="1"/><w:numFmt w:val="bullet"/><w:lvlText w:val="o"/></w:lvl></w:abstractNum>` +
+	`<w:num w:numId="1"><w:abstractNumId w:val="0"/></w:num><w:num w:numId="2"><w:abstractNumId w:val="1"/></w:num></w:numbering>`
+
+// H_C15_docx_package_markdown: the Markdown of a whole DOCX package keeps structure: headings as ATX headings of the
+// source level (capped at 6), list items in order with their nesting depth and ordered/unordered kind, tables as pipe
+// tables, and no body text lost.
+//
+//symgo:harness prop=C15 kernel=K3-docx-package-markdown noreplay=1
+//symgo:redirect archive/zip.OpenReader vStubOpenZip
+//symgo:desc zip layer cut (member content model); parts: document.xml, styles.xml (Heading1, Heading2, custom style on Heading2), numbering.xml (numId 1 decimal / lower-letter, numId 2 bullets); body = 2 quick / 2..3 thorough elements out of: heading by style (level 1 or 2), heading by outlineLvl 6 (level 7, to be capped at 6), plain paragraph, a three-item list (ordered or bulleted, enumerated) whose middle item is nested one level deeper, a 2x2 table with a pipe in one cell (enumerated): Markdown(): every body text occurs exactly once, in source order; a heading line is '#' x min(level,6) + text; list lines are "<number>. " (ordered; the number itself is not checked) or "- " (bulleted) with two spaces of indentation per level, in order; the table is one pipe table read back by the reference GFM reader with its cell texts
+func H_C15_docx_package_markdown() {
+	n := vAnyIntIn(2, 2+vTier())
+	type exp struct {
+		kind  string // h, p, ol, ul, tbl
+		text  string
+		level int
+	}
+	var want []exp
+	body := ""
+	for i := 0; i < n; i++ {
+		w := "txt" + string(rune('A'+i))
+		run := func(t string) string { return `<w:r><w:t>` + t + `</w:t></w:r>` }
+		switch vAnyIntIn(0, 5) {
+		case 0:
+			lvl := vAnyIntIn(1, 2)
+			body += `<w:p><w:pPr><w:pStyle w:val="Heading` + string(rune('0'+lvl)) + `"/></w:pPr>` + run(w) + `</w:p>`
+			want = append(want, exp{"h", w, lvl})
+		case 1:
+			body += `<w:p><w:pPr><w:outlineLvl w:val="6"/></w:pPr>` + run(w) + `</w:p>`
+			want = append(want, exp{"h", w, 7})
+		case 2:
+			body += `<w:p>` + run(w) + `</w:p>`
+			want = append(want, exp{"p", w, 0})
+		case 3, 4:
+			numID, kind := "1", "ol"
+			if vAnyIntIn(0, 1) == 1 {
+				numID, kind = "2", "ul"
+			}
+			for k, lv := range []int{0, 1, 0} {
+				body += `<w:p><w:pPr><w:numPr><w:ilvl w:val="` + string(rune('0'+lv)) + `"/><w:numId w:val="` + numID + `"/></w:numPr></w:pPr>` + run(w+string(rune('0'+k))) + `</w:p>`
+				want = append(want, exp{kind, w + string(rune('0'+k)), lv})
+			}
+		default:
+			body += `<w:tbl><w:tr><w:tc><w:p>` + run(w+"a") + `</w:p></w:tc><w:tc><w:p>` + run(w+"b|c") + `</w:p></w:tc></w:tr><w:tr><w:tc><w:p>` + run(w+"d") + `</w:p></w:tc><w:tc><w:p>` + run(w+"e") + `</w:p></w:tc></w:tr></w:tbl>`
+			want = append(want, exp{"tbl", w, 0})
+		}
+	}
+	doc := `<?xml version="1.0" encoding="UTF-8" standalone="yes"?><w:document ` + vWNS + `><w:body>` + body + `<w:sectPr/></w:body></w:document>`
+	vZip = &zip.ReadCloser{}
+	vMember("[Content_Types].xml", `<?xml version="1.0"?><Types xmlns="http://schemas.openxmlformats.org/package/2006/content-types"/>`)
+	vMember("word/document.xml", doc)
+	vMember("word/styles.xml", vStylesXML)
+	vMember("word/numbering.xml", vNumberingXML)
+	r, err := Open("any.docx")
+	vAssert("opens", err == nil && r != nil)
+	md, merr := r.Markdown()
+	vAssert("markdown-no-error", merr == nil)
+	lines := strings.Split(md, "\n")
+	li := 0
+	find := func(prefix, text string) int {
+		for k := li; k < len(lines); k++ {
+			if lines[k] == prefix+text {
+				return k
+			}
+		}
+		return -1
+	}
+	for _, w := range want {
+		switch w.kind {
+		case "h":
+			lvl := w.level
+			if lvl > 6 {
+				lvl = 6
+			}
+			k := find(strings.Repeat("#", lvl)+" ", w.text)
+			vAssert("heading-is-atx-of-source-level-capped-at-6", k >= 0)
+			li = k + 1
+		case "p":
+			k := find("", w.text)
+			vAssert("paragraph-text-kept-in-order", k >= 0)
+			li = k + 1
+		case "ol", "ul":
+			// the number shown is the list's business (a list instance keeps counting across interruptions);
+			// the property fixes order, indentation by depth and the kind of marker
+			indent := strings.Repeat("  ", w.level)
+			k := -1
+			for q := li; q < len(lines) && k < 0; q++ {
+				ln := lines[q]
+				if !strings.HasPrefix(ln, indent) || strings.HasPrefix(ln, indent+" ") {
+					continue
+				}
+				rest := ln[len(indent):]
+				if w.kind == "ul" {
+					if rest == "- "+w.text {
+						k = q
+					}
+					continue
+				}
+				d := 0
+				for d < len(rest) && rest[d] >= '0' && rest[d] <= '9' {
+					d++
+				}
+				if d > 0 && rest[d:] == ". "+w.text {
+					k = q
+				}
+			}
+			vAssert("list-item-order-nesting-and-kind", k >= 0)
+			li = k + 1
+		default:
+			k := -1
+			for q := li; q < len(lines); q++ {
+				if strings.HasPrefix(lines[q], "|") {
+					k = q
+					break
+				}
+			}
+			vAssert("table-present-in-order", k >= 0)
+			e := k
+			for e < len(lines) && strings.HasPrefix(lines[e], "|") {
+				e++
+			}
+			got, ok := vGFMParse(strings.Join(lines[k:e], "\n") + "\n")
+			vAssert("table-is-one-pipe-table", ok && len(got) == 2 && len(got[0]) == 2 && len(got[1]) == 2)
+			vAssert("table-cell-texts", got[0][0] == w.text+"a" && got[0][1] == w.text+"b|c" && got[1][0] == w.text+"d" && got[1][1] == w.text+"e")
+			li = e
+		}
+	}
+	for _, w := range want {
+		if w.kind != "tbl" {
+			vAssert("no-body-text-lost-or-doubled", strings.Count(md, w.text) == 1)
+		}
+	}
+	vReach("end")
+}
